@@ -33,8 +33,9 @@ type SrvCase struct {
 	End     string `json:"end"`   // still-waiting | bridge-close | ctx-cancel | sm-close | served-then-closed
 	Host    string `json:"host"`
 	Port    int    `json:"port"`
-	Seq     int    `json:"seq"`     // makes the tunnel id
-	Bystand bool   `json:"bystand"` // a second waiting tunnel on another mapping must be unaffected by a bridge-close of the first
+	Seq     int    `json:"seq"`           // makes the tunnel id
+	Bystand bool   `json:"bystand"`       // a second waiting tunnel on another mapping must be unaffected by a bridge-close of the first
+	Dup     string `json:"dup,omitempty"` // while waiting: "", "replay-same-client" or "other-client-other-mapping" sends a second source-side open for the same tunnel id
 }
 
 const endBound = 3 * time.Second
@@ -49,6 +50,7 @@ func genSrvCase(t *rapid.T) SrvCase {
 		Seq:     rapid.IntRange(1, 999999).Draw(t, "seq"),
 		Bystand: rapid.Bool().Draw(t, "bystand"),
 	}
+	c.Dup = rapid.SampledFrom([]string{"", "", "replay-same-client", "other-client-other-mapping"}).Draw(t, "dup")
 	if c.Start == "server-tunnel" && c.End == "served-then-closed" {
 		c.End = "bridge-close" // the server-internal source has no client transport to finish a served tunnel with
 	}
@@ -244,6 +246,49 @@ func runSrvCase(c SrvCase) (*failure, bool) {
 			}
 		}
 	}
+	// a second source-side open for the id of a waiting tunnel (replayed by the same client, or by another
+	// legitimate client with a mapping of its own) must leave the record exactly as registered
+	var dupConn *miniserver.Client
+	if c.Dup != "" {
+		req := &packet.TunnelOpenRequest{MappingID: mp.ID, TunnelID: o.tid}
+		id, secret := L.ID, L.SecretKeyPlaintext
+		if c.Dup == "other-client-other-mapping" {
+			L2, err := srv.Cloud.GenerateAnonymousCredentials()
+			if err != nil {
+				panic("C09 harness: credentials: " + err.Error())
+			}
+			m2, err := srv.Cloud.CreatePortMapping(&models.PortMapping{ListenClientID: L2.ID, TargetClientID: L.ID, Protocol: models.ProtocolTCP,
+				SourcePort: 17790, TargetHost: "other.example", TargetPort: 2222, SecretKey: "other-secret-0123456789abcdef012", Status: models.MappingStatusActive})
+			if err != nil {
+				panic("C09 harness: second mapping: " + err.Error())
+			}
+			req.MappingID, id, secret = m2.ID, L2.ID, L2.SecretKeyPlaintext
+		}
+		dc, err := srv.Connect(fmt.Sprintf("7.7.%d.%d:1003", c.Seq>>8&255, c.Seq&255))
+		if err != nil {
+			panic("C09 harness: Connect: " + err.Error())
+		}
+		if r, err := dc.Login(id, secret, "tunnel"); err != nil || r == nil || !r.Success {
+			panic(fmt.Sprintf("C09 harness: duplicate opener login failed: %+v %v", r, err))
+		}
+		dupConn = dc
+		sendTunnelOpen(dc, req, 2*time.Second) // accepted as a source re-attach or refused: either way the record must not change
+		if f := waiting(o, "after a duplicate open ("+c.Dup+")"); f != nil {
+			f.key = "C09/server/record-changed-by-duplicate-open/" + c.Dup + "/" + c.Backend
+			return f, true
+		}
+	}
+	// A replayed open by the listen client is attached to the bridge as its second end, i.e. the tunnel is then
+	// being served between the client's two connections; a node that shuts down also drops its transports, which
+	// is what ends a served tunnel.
+	shutdownTransports := func() {
+		if dupConn != nil && c.Dup == "replay-same-client" {
+			dupConn.CloseByPeer()
+			if o.src != nil {
+				o.src.CloseByPeer()
+			}
+		}
+	}
 	switch c.End {
 	case "still-waiting":
 		time.Sleep(20 * time.Millisecond)
@@ -256,8 +301,10 @@ func runSrvCase(c SrvCase) (*failure, bool) {
 		br.Close()
 	case "ctx-cancel":
 		srv.Cancel()
+		shutdownTransports()
 	case "sm-close":
 		srv.SM.Close()
+		shutdownTransports()
 	case "served-then-closed":
 		tc, err := srv.Connect(fmt.Sprintf("6.6.%d.%d:1002", c.Seq>>8&255, c.Seq&255))
 		if err != nil {
@@ -272,6 +319,9 @@ func runSrvCase(c SrvCase) (*failure, bool) {
 		}
 		tc.CloseByPeer()
 		o.src.CloseByPeer()
+		if dupConn != nil {
+			dupConn.CloseByPeer() // a replayed open may have become the bridge's source transport
+		}
 	}
 	if f := ended(o); f != nil {
 		return f, true
@@ -302,8 +352,11 @@ func checkSrv(t vkit.TB, c SrvCase) {
 		return
 	}
 	class := "server:" + c.Start + "/" + c.End
-	vkit.Case(class, c.End != "still-waiting", fmt.Sprintf("srv|%s|%s|%s|%s|%d|%v", c.Backend, c.Start, c.End, c.Host, c.Port, c.Bystand))
+	vkit.Case(class, c.End != "still-waiting", fmt.Sprintf("srv|%s|%s|%s|%s|%d|%v|%s", c.Backend, c.Start, c.End, c.Host, c.Port, c.Bystand, c.Dup))
 	vkit.Class("server-backend:" + c.Backend)
+	if c.Dup != "" {
+		vkit.Class("server-dup:" + c.Dup)
+	}
 	vkit.Sample(class, c)
 }
 
